@@ -53,6 +53,9 @@ def gen(rng, tier):
             for v in boundary_values(rng, t, ck, 2)[:8]:
                 ops += [(1, 0, t, v), (3, 0), (2, 0, t, v), (3, 0)]
             yield tab.line(ops)
+    # histories in which an operation ends early (failing sanitise), then every register is probed again
+    for l in stale_state_histories(rng, 120 if big else 30):
+        yield l
     # 16-bit types: all values
     step = 1 if big else 37
     for t in (0, 3):
